@@ -8,13 +8,17 @@ gen_trans.register('mm_vmm.json')   # Go -> Gallina translation of the pageTable
 gen_trans.register('vmm_pdt.json')    # "memory as state" translations used by the fault-handler tie (Vmm/FaultTrans.v needs the oracles of Vmm/PdtTrans.v, Vmm/MapTrans.v)
 gen_trans.register('vmm_map.json')
 gen_trans.register('vmm_fault.json')  # pageFaultHandler with the closure passed to walk, raw-pointer loads/stores and stateful seams (Gen/Trans_vmm_fault.v, Vmm/FaultTrans.v)
+gen_trans.register('vmm_zero.json')   # reserveZeroedFrame (state variables ReservedZeroedFrame / protectReservedZeroedPage assigned; Gen/Trans_vmm_zero.v, Vmm/ZeroTrans.v)
+gen_trans.register('vmm_gpf.json')    # generalProtectionFaultHandler (printing seams, panic as a recorded call that ends the run; Gen/Trans_vmm_gpf.v, Vmm/GpfTrans.v)
 from pt_common import LO, P, RW, US, HUGE, COW, NX, M64, M36
 
 
 class C06(flow.Spec):
     prop = 'C06'
     props_files = ['theories/Props/C06.v', 'theories/Props/C06_examples.v', 'theories/Props/C06_mem.v', 'theories/Props/C06_mem_examples.v',
-                   'theories/Props/C06_fault_trans.v', 'theories/Props/C06_fault_trans_examples.v']
+                   'theories/Props/C06_fault_trans.v', 'theories/Props/C06_fault_trans_examples.v',
+                   'theories/Props/C06_zero_trans.v', 'theories/Props/C06_zero_trans_examples.v',
+                   'theories/Props/C06_gpf_trans.v', 'theories/Props/C06_gpf_trans_examples.v']
     model_targets = ['theories/Vmm/Pt.vo', 'theories/Kernel/MemUtil.vo']
     pkg = 'mm/vmm'
     harness = pc.HARNESS + [os.path.join(pc.H, 'zz_verif_c06_test.go')]
